@@ -1,0 +1,172 @@
+//go:build verif
+
+// Copyright (c) 2026 Tigera, Inc. All rights reserved.
+//
+// Licensed under the Apache License, Version 2.0 (the "License");
+// you may not use this file except in compliance with the License.
+// You may obtain a copy of the License at
+//
+//     http://www.apache.org/licenses/LICENSE-2.0
+//
+// Unless required by applicable law or agreed to in writing, software
+// distributed under the License is distributed on an "AS IS" BASIS,
+// WITHOUT WARRANTIES OR CONDITIONS OF ANY KIND, either express or implied.
+// See the License for the specific language governing permissions and
+// limitations under the License.
+
+package intdataplane
+
+// This file only exists in builds with the "verif" tag.  It exports thin
+// constructors for managers whose constructors are unexported so that an
+// out-of-package deterministic-simulation harness can drive the real managers
+// against recording fakes.  It adds no behaviour.
+
+import (
+	"os"
+
+	apiv3 "github.com/projectcalico/api/pkg/apis/projectcalico/v3"
+
+	"github.com/projectcalico/calico/felix/dataplane/common"
+	dpsets "github.com/projectcalico/calico/felix/dataplane/ipsets"
+	"github.com/projectcalico/calico/felix/linkaddrs"
+	"github.com/projectcalico/calico/felix/netlinkshim"
+	"github.com/projectcalico/calico/felix/nftables"
+	"github.com/projectcalico/calico/felix/routetable"
+	"github.com/projectcalico/calico/felix/rules"
+	"github.com/projectcalico/calico/lib/logrusr"
+)
+
+// SimManager is the part of the Manager contract the simulation drives.
+type SimManager interface {
+	OnUpdate(protoBufMsg any)
+	CompleteDeferredWork() error
+}
+
+// SimBatchManager is a SimManager that also resolves update batches.
+type SimBatchManager interface {
+	SimManager
+	ResolveUpdateBatch() error
+}
+
+// SimRouteManager is a route-programming manager; the parent device name is
+// normally delivered by the manager's background device goroutine.
+type SimRouteManager interface {
+	SimManager
+	OnParentDeviceUpdate(name string) bool
+}
+
+// EndpointManagerSimConfig mirrors endpointManagerConfig.
+type EndpointManagerSimConfig struct {
+	KubeIPVSSupportEnabled bool
+	WlInterfacePrefixes    []string
+	BPFEnabled             bool
+	BPFAttachType          apiv3.BPFAttachOption
+	NFT                    bool
+	FloatingIPsEnabled     bool
+	NormalRoutePriority    int
+	ElevatedRoutePriority  int
+}
+
+// NewEndpointManagerForSim builds the real endpointManager with injected
+// /proc/sys writer and stat function.
+func NewEndpointManagerForSim(
+	cfg EndpointManagerSimConfig,
+	rawTable, mangleTable, filterTable Table,
+	ruleRenderer rules.RuleRenderer,
+	routeTable routetable.Interface,
+	ipVersion uint8,
+	epMarkMapper rules.EndpointMarkMapper,
+	onStatus EndpointStatusUpdateCallback,
+	writeProcSys func(path, value string) error,
+	osStat func(path string) (os.FileInfo, error),
+	defaultRPFilter string,
+	filterMaps nftables.MapsDataplane,
+	flowtableHandler nftables.FlowTableHandler,
+	callbacks *common.Callbacks,
+	linkAddrsMgr linkaddrs.Interface,
+	arpTable Table,
+	arpMaps nftables.MapsDataplane,
+) SimBatchManager {
+	return newEndpointManagerWithShims(
+		&endpointManagerConfig{
+			kubeIPVSSupportEnabled: cfg.KubeIPVSSupportEnabled,
+			wlInterfacePrefixes:    cfg.WlInterfacePrefixes,
+			bpfEnabled:             cfg.BPFEnabled,
+			bpfAttachType:          cfg.BPFAttachType,
+			nft:                    cfg.NFT,
+			floatingIPsEnabled:     cfg.FloatingIPsEnabled,
+			normalRoutePriority:    cfg.NormalRoutePriority,
+			elevatedRoutePriority:  cfg.ElevatedRoutePriority,
+		},
+		rawTable, mangleTable, filterTable,
+		ruleRenderer,
+		routeTable,
+		ipVersion,
+		epMarkMapper,
+		onStatus,
+		writeProcSys,
+		osStat,
+		defaultRPFilter,
+		filterMaps,
+		flowtableHandler,
+		nil, // bpfEndpointManager
+		callbacks,
+		linkAddrsMgr,
+		arpTable,
+		arpMaps,
+	)
+}
+
+// NewFlowtableExclusionManagerForSim builds the real flowtableExclusionManager.
+func NewFlowtableExclusionManagerForSim(ipSets dpsets.IPSetsDataplane, ipVersion uint8, maxIPSetSize int) SimManager {
+	return newFlowtableExclusionManager(ipSets, ipVersion, maxIPSetSize)
+}
+
+type simRouteMgr struct {
+	SimManager
+	rm *routeManager
+}
+
+func (s simRouteMgr) OnParentDeviceUpdate(name string) bool { return s.rm.OnParentDeviceUpdate(name) }
+
+// NewVXLANManagerForSim builds the real vxlanManager (and its routeManager).
+func NewVXLANManagerForSim(
+	ipSets dpsets.IPSetsDataplane,
+	rt routetable.Interface,
+	fdb VXLANFDB,
+	deviceName string,
+	ipVersion uint8,
+	mtu int,
+	dpConfig Config,
+	opRecorder logrusr.OpRecorder,
+	nlHandle netlinkshim.Interface,
+) SimRouteManager {
+	m := newVXLANManagerWithShims(ipSets, rt, fdb, deviceName, ipVersion, mtu, dpConfig, opRecorder, nlHandle)
+	return simRouteMgr{SimManager: m, rm: m.routeMgr}
+}
+
+// NewIPIPManagerForSim builds the real ipipManager (and its routeManager).
+func NewIPIPManagerForSim(
+	rt routetable.Interface,
+	tunnelDevice string,
+	ipVersion uint8,
+	mtu int,
+	dpConfig Config,
+	opRecorder logrusr.OpRecorder,
+	nlHandle netlinkshim.Interface,
+) SimRouteManager {
+	m := newIPIPManagerWithShims(rt, tunnelDevice, ipVersion, mtu, dpConfig, opRecorder, nlHandle)
+	return simRouteMgr{SimManager: m, rm: m.routeMgr}
+}
+
+// NewNoEncapManagerForSim builds the real noEncapManager (and its routeManager).
+func NewNoEncapManagerForSim(
+	rt routetable.Interface,
+	ipVersion uint8,
+	dpConfig Config,
+	opRecorder logrusr.OpRecorder,
+	nlHandle netlinkshim.Interface,
+) SimRouteManager {
+	m := newNoEncapManagerWithSims(rt, ipVersion, dpConfig, opRecorder, nlHandle)
+	return simRouteMgr{SimManager: m, rm: m.routeMgr}
+}
